@@ -7,6 +7,7 @@
     confine.sub      <sub> <p>              SubFS(parent, sub).delegate_path(p)
     confine.subn     <L sub1,sub2,…> <p>    fs.opendir(sub1).opendir(sub2)… ; path reaching fs
     confine.subnc    <invalid> <L subs> <p>  the same as coded: the parent's invalid characters refused first
+    confine.mountnc  <invalid> <L mounts> <p>  MountFS._delegate as coded: its invalid characters refused first
     confine.mount    <L mount paths> <p>    MountFS._delegate(p)
     confine.tarnames <L member names>       ReadTarFS._directory_entries keys + visible paths
     confine.zipnames <L member names>       ReadZipFS._directory
@@ -69,6 +70,13 @@ def handle (cmd : String) (args : List String) : Option String :=
       some (res (fun (r : Option Nat × Str) =>
           (match r.1 with | none => "-" | some i => toString i) ++ " " ++ str r.2)
         (do let mps ← ms.mapM mountPoint; mountDelegate mps p))
+  | "confine.mountnc" => do
+      let inv ← arg args 0
+      let ms ← argList args 1
+      let p ← arg args 2
+      some (res (fun (r : Option Nat × Str) =>
+          (match r.1 with | none => "-" | some i => toString i) ++ " " ++ str r.2)
+        (do let mps ← ms.mapM mountPoint; mountDelegateChk inv mps p))
   | "confine.tarnames" => do
       let names ← argList args 0
       some ("ok " ++ strList (tarKeys names) ++ " " ++ strList ((tarVisible names).map joinSlash))
